@@ -146,6 +146,12 @@ def stages(run, thorough, dev):
     for label, cfg, ov, flags, mps, blobs in gens:
         inits, edges = run.tlc_edges("FsGen", cfg, ov, timeout=1200)
         walks, st = edge_cover(inits, edges, maxlen=36, rng=run.rng, extra_walks=60 if thorough else 10)
+        cap = int(os.environ.get("XFS_MAXWALKS", "0") or 0) or (0 if thorough else 120)
+        if cap and len(walks) > cap:
+            # quick tier: a seeded sample of the covering walks (the thorough tier executes all of them)
+            walks = run.rng.sample(walks, cap)
+            st = dict(st, executed=cap, covered_note="sampled")
+            exhaustive = False
         # a walk with a prefetch time-out costs 1 s of wall time: fine, they run in parallel
         log("[walks] %s: %s" % (label, st))
         exhaustive = exhaustive and st["covered"] == st["edges"]
